@@ -87,8 +87,8 @@ PLAN.update({
         'fam': 'client',
         'inv': ['C08_Mirror', 'C08_FullyDisconnected', 'C08_ConnectOutcome',
                 'C08_BadNamespace', 'C08_HandlersOnce'],
-        'quick': ['cstate_quick'],
-        'thorough': ['cstate_fn', 'cstate_class'],
+        'quick': ['cstate_quick', 'cstate_implicit'],
+        'thorough': ['cstate_fn', 'cstate_class', 'cstate_implicit'],
     },
     'C20': {
         'fam': 'threads',
